@@ -18,6 +18,7 @@ import (
 	"path/filepath"
 	"runtime"
 	"strings"
+	"sync"
 	"sync/atomic"
 
 	"github.com/filecoin-project/go-f3/certs"
@@ -418,6 +419,7 @@ func main() {
 	prop := flag.String("prop", "", "C05, C09 or C18")
 	bound := flag.Int("preempt", -1, "preemption bound")
 	debugPrefix := flag.String("debugprefix", "", "comma separated choices: execute scenario 0 twice with this prefix and print steps")
+	free := flag.Int("free", 0, "run every scenario N times free-running (no scheduler): meant for a -race build, which sees unsynchronised accesses that cooperative hand-offs hide")
 	flag.Parse()
 	thorough := vcommon.Thorough()
 	pb := 2
@@ -463,6 +465,29 @@ func main() {
 			fmt.Println("=== run", i)
 			b, _ := scs[0].mk()
 			vsched.Execute(scs[0].names, b, pre, 4000, 20e9)
+		}
+		return
+	}
+	if *free > 0 {
+		bad := 0
+		for _, sc := range scs {
+			for i := 0; i < *free; i++ {
+				bodies, check := sc.mk()
+				var wg sync.WaitGroup
+				for _, b := range bodies {
+					wg.Add(1)
+					go func(b func()) { defer wg.Done(); b() }(b)
+				}
+				wg.Wait()
+				if o := check(vsched.Result{}); o != nil {
+					bad++
+					fmt.Printf("free-running %s: %s: %s\n", sc.name, o.fp, o.what)
+				}
+			}
+		}
+		fmt.Printf("free-running pass: %d scenario(s) x %d runs, %d oracle failures\n", len(scs), *free, bad)
+		if bad > 0 {
+			os.Exit(1)
 		}
 		return
 	}
